@@ -258,7 +258,32 @@ def run(tier):
     for k, names in sorted(readers.items()):
         rep.check(k in BUFFER_STATE_READERS, "buffer-state-readers", short(k), "this function now asks how much is buffered (%s): its result can depend on the "
                   "back-end's buffer capacity and fill state, which is exactly what must not influence parsing" % ", ".join(sorted(set(names))), site=F.fns[k].span)
+    # ... and where the reason is "assertion only", the value read may do nothing but decide between going on and panicking: every
+    # buflen() of the function feeds exactly one test one of whose edges leads straight to a panic
+    n_assert = 0
+    for k, why in sorted(BUFFER_STATE_READERS.items()):
+        if "assertion" not in why or k not in F.fns:
+            continue
+        f = F.fns[k]
+        ncalls = sum(1 for bb, t, ck, fr in f.calls() if fr and fr.get("trait") == INPUT and fr["name"] in ("buflen", "buf_is_empty"))
+        div = cfg.diverging_blocks(f)
+        ntests, steering = 0, []
+        for bi, b in enumerate(f.blocks):
+            t = b["term"]
+            if b["cleanup"] or t["k"] != "switch":
+                continue
+            e = cfg.expr_str(cfg.expr_operand(f, t["discr"], 8))
+            if "Input::buflen" in e or "Input::buf_is_empty" in e:
+                ntests += 1
+                succ = list(t["targets"]) + [t["otherwise"]]
+                if not any(x in div or (f.blocks[x]["term"]["k"] == "goto" and f.blocks[x]["term"]["t"] in div) for x in succ):
+                    steering.append(bi)
+        n_assert += 1
+        rep.check(ncalls == ntests and not steering, "buffer-state-assert-only", short(k),
+                  "the buffer fill state is read for more than an assertion here (%d reads, %d tests, %d of them with no panicking edge): the answer of this "
+                  "look-ahead test then depends on how much the back-end happens to have buffered" % (ncalls, ntests, len(steering)), site=f.span)
     rep.floor("functions that read the buffer state", len(readers), 4)
+    rep.floor("assert-only readers of the buffer state", n_assert, 3)
     return rep
 
 
